@@ -9,7 +9,7 @@ from ..avals import *   # noqa
 from ..decide import Runs, need_ge0, need_eq0, definite, soft
 from ..report import Ob, PROVED, REFUTED, UNDECIDED, func_where, ASSUMPTIONS, Failure
 from ..model import norm_text, AnalysisError
-from .c13 import cipher_ob
+from .c13 import cipher_ob, _whole_key
 
 
 def check(prog, res, tier):
@@ -186,6 +186,12 @@ def cipher_ob_generic(prog, res, fi):
             fails.append(definite(f'cipher mode is {modes_}, expected ECB'))
         if meths != ['encryptor']:
             fails.append(definite(f'uses {meths}, expected .encryptor()'))
+        # the cipher key must be the caller's key material, whole and unmodified
+        for e in p.evs('ext-call'):
+            if e.data['callee'].split('.')[-1] in ('TripleDES', 'AES') and e.data['args']:
+                k = p.interp.resolve(e.data['args'][0])
+                if not _whole_key(p, k):
+                    fails.append(definite(f'the cipher is keyed with {k!r}, not the key supplied by the caller', e.node))
         return fails
     return runs.judge('C14.d', f'{fi.short} encrypts with TripleDES in ECB mode', func_where(fi),
                       'Cipher(TripleDES(key), modes.ECB()).encryptor()', chk, rule=f'C14.d.{fi.short}',
